@@ -301,6 +301,30 @@ def dangling_calls(proto, once_defined=None) -> set[tuple[str, str, str]]:
     return dangling
 
 
+_CONSTANT_VALUE_FORMS = {"value", "sparse_value", "value_float", "value_floats", "value_int", "value_ints",
+                         "value_string", "value_strings"}
+
+
+def valueless_constants(proto) -> list[str]:
+    """Outputs of the standard-domain Constant nodes, reachable from the main graph (through subgraphs and the
+    bodies of the model-local functions that are called), that carry NO value attribute at all - neither a literal
+    nor a reference to an attribute parameter.  ONNX: exactly one of the value forms must be given; such a node
+    computes nothing (``onnx.checker`` in its default mode does not look; onnxruntime refuses to load the model)."""
+    defined = {(_norm(f.domain), f.name, f.overload): f for f in proto.functions}
+    found, seen = [], set()
+    work = [proto.graph.node]
+    while work:
+        for n in _all_nodes(work.pop()):
+            ident = (_norm(n.domain), n.op_type, n.overload)
+            if ident in defined:
+                if ident not in seen:
+                    seen.add(ident)
+                    work.append(defined[ident].node)
+            elif ident[0] == "" and n.op_type == "Constant" and not any(a.name in _CONSTANT_VALUE_FORMS for a in n.attribute):
+                found.append(n.output[0] if n.output else n.name)
+    return found
+
+
 def shadowed_names(proto, declared_only: bool = False) -> set[str]:
     """Names that a nested graph declares or defines (input, initializer; node output unless ``declared_only``)
     although the name is VISIBLE there: an input, an initializer or the output of an earlier node of an enclosing
@@ -367,11 +391,38 @@ def _all_graphs(graph):
                 yield from _all_graphs(g)
 
 
+def _falsy_literal(a) -> bool:
+    """The attribute holds a literal that Python calls falsy although it is a value: 0, 0.0, "", an empty list."""
+    if a.ref_attr_name:
+        return False
+    T = onnx.AttributeProto
+    return (a.type == T.FLOAT and a.f == 0.0) or (a.type == T.INT and a.i == 0) or (a.type == T.STRING and a.s == b"") or \
+        (a.type == T.INTS and not a.ints) or (a.type == T.FLOATS and not a.floats) or (a.type == T.STRINGS and not a.strings)
+
+
+def falsy_call_stats(proto) -> tuple[int, int]:
+    """(calls of model-local functions that OMIT an attribute parameter whose declared default is a falsy literal,
+    calls that GIVE a declared attribute parameter as a falsy literal) over the main graph tree and the function
+    bodies.  Decided on the proto, whatever planted the pattern."""
+    defined = {(_norm(f.domain), f.name, f.overload): f for f in proto.functions}
+    omitted = given = 0
+    for n in list(_all_nodes(proto.graph.node)) + [n for f in proto.functions for n in _all_nodes(f.node)]:
+        callee = defined.get((_norm(n.domain), n.op_type, n.overload))
+        if callee is None:
+            continue
+        listed = {a.name: a for a in n.attribute}
+        omitted += any(d.name not in listed and _falsy_literal(d) for d in callee.attribute_proto)
+        params = set(callee.attribute) | {d.name for d in callee.attribute_proto}
+        given += any(name in params and _falsy_literal(a) for name, a in listed.items())
+    return omitted, given
+
+
 def reach_stats(proto) -> dict:
     """Structural facts of a model that the reach counters compare before / after a pass sequence (never a verdict)."""
     declared = {(_norm(f.domain), f.name, f.overload): len(f.input) for f in proto.functions}
     main_nodes = list(_all_nodes(proto.graph.node))
     everywhere = main_nodes + [n for f in proto.functions for n in _all_nodes(f.node)]
+    falsy_default_calls, falsy_value_calls = falsy_call_stats(proto)
     string_consts = sum(1 for n in main_nodes if n.op_type == "Constant" and n.domain in ("", "ai.onnx")
                         and any(a.name in ("value_string", "value_strings") for a in n.attribute))
     string_inits = [sum(1 for t in g.initializer if t.data_type == onnx.TensorProto.STRING) for g in _all_graphs(proto.graph)]
@@ -404,6 +455,7 @@ def reach_stats(proto) -> dict:
         "init_family": sum(1 for name, k in held.items() if k >= 2 and name in taken_bases),
         "subgraph_inits": sum(held.values()), "fn_family": fn_family,
         "local_calls_main": sum(1 for n in main_nodes if (_norm(n.domain), n.op_type, n.overload) in declared),
+        "falsy_default_calls": falsy_default_calls, "falsy_value_calls": falsy_value_calls,
     }
 
 
@@ -442,6 +494,15 @@ def count_reach(ctx, case: GE.Case, proto, applied) -> None:
         ctx.count("reach:inline_on_fn_inner_name_family")
         if after["local_calls_main"] < before["local_calls_main"]:
             ctx.count("reach:call_inlined_next_to_derived_names")
+    # falsy attribute values that are values: a call that relies on a falsy DEFAULT of the callee's attribute
+    # parameter / that gives a parameter as a falsy literal, and the inliner instantiated such a call
+    for key, what in (("falsy_default_calls", "call_relying_on_falsy_default"), ("falsy_value_calls", "call_giving_falsy_attribute_value")):
+        if before[key]:
+            ctx.count(f"reach:sequence_on_{what}")
+            if "InlinePass" in names:
+                ctx.count(f"reach:inline_on_{what}")
+                if after[key] < before[key]:
+                    ctx.count(f"reach:{what}_inlined")
 
 
 def role_payload_stats(model: ir.Model) -> dict:
@@ -526,6 +587,20 @@ def evaluate(case: GE.Case, model: ir.Model, ctx=None, want: str | None = None, 
             found.append(("dangling-function-call", "P(M) still calls " + ", ".join(
                 f"{d}::{n}" + (f":{o}" if o else "") for d, n, o in sorted(lost)) +
                 " (reachable from the main graph) but no longer defines it; M defined it"))
+    # a Constant node left without any value attribute: P(M) computes nothing there (decided on the structure of
+    # the two protos).  Only for an M that is itself free of such nodes and in which no call omits an attribute
+    # parameter that was declared without default (a reference to such a parameter legitimately resolves to
+    # 'absent' when the call is inlined).
+    judged = case.__dict__.get("_c05_constants_judged")
+    if judged is None:
+        judged = case.__dict__["_c05_constants_judged"] = \
+            not valueless_constants(case.proto) and _with_explicit_defaults(case.proto) is not None
+    if judged:
+        count("valueless_constants_decided")
+        hollow = valueless_constants(proto)
+        if hollow:
+            found.append(("constant-without-value", f"P(M) holds Constant node(s) without any value attribute (outputs "
+                          f"{hollow[:4]}), reachable from the main graph; M has none: P(M) computes nothing there"))
     ins0, outs0 = _sig_io(case.proto)
     ins1, outs1 = _sig_io(proto)
     count("io_decided")
@@ -545,7 +620,7 @@ def evaluate(case: GE.Case, model: ir.Model, ctx=None, want: str | None = None, 
                 count(f"report_only_{what}_renamed")
     if want is not None and not want.startswith("outputs-differ"):
         return found
-    if (msg is not None or io_broken or any(c == "dangling-function-call" for c, _ in found)) and want is None:
+    if (msg is not None or io_broken or any(c in ("dangling-function-call", "constant-without-value") for c, _ in found)) and want is None:
         # an invalid model has no defined outputs.  (While shrinking an outputs-differ witness the
         # comparison is still made, so that the pass that *introduced* the difference is found even
         # if the model was only made checkable again by a later pass.)
@@ -682,13 +757,42 @@ def _evaluator_self_consistent(e: str, case: GE.Case, proto, j: int) -> bool:
     return True
 
 
+def _with_explicit_defaults(model_proto):
+    """The same model with every call of a model-local function made explicit: an attribute parameter that the
+    callee declares WITH a default (``FunctionProto.attribute_proto``) and the call does not list is added to the
+    call with that default - what the ONNX specification says the call means.  A proto-level rewrite written for the
+    harness.  None when some call omits a parameter declared WITHOUT default (a reference to it inside the body then
+    resolves to 'absent', which cannot be written down at the call site).
+    Observed need (probe, onnx 1.22): ``onnx.inliner.inline_local_functions`` ignores ``attribute_proto`` altogether -
+    a call that relies on a default is inlined with the references simply dropped - so it is semantics preserving
+    only on models whose calls list every defaulted parameter."""
+    out = onnx.ModelProto()
+    out.CopyFrom(model_proto)
+    defined = {(_norm(f.domain), f.name, f.overload): f for f in out.functions}
+    for n in list(_all_nodes(out.graph.node)) + [n for f in out.functions for n in _all_nodes(f.node)]:
+        callee = defined.get((_norm(n.domain), n.op_type, n.overload))
+        if callee is None:
+            continue
+        listed = {a.name for a in n.attribute}
+        if any(name not in listed for name in callee.attribute):
+            return None
+        for default in callee.attribute_proto:
+            if default.name not in listed:
+                n.attribute.add().CopyFrom(default)
+    return out
+
+
 def _reencode_inlined(model_proto):
-    """The same model with its functions inlined by onnx's own inliner (None when it has none)."""
+    """The same model with its functions inlined by onnx's own inliner (None when it has none), after every call
+    was made explicit about the defaulted attribute parameters it relies on (``_with_explicit_defaults``)."""
     import onnx.inliner
 
     if not model_proto.functions:
         return None
-    return onnx.inliner.inline_local_functions(model_proto)
+    explicit = _with_explicit_defaults(model_proto)
+    if explicit is None:
+        return None
+    return onnx.inliner.inline_local_functions(explicit)
 
 
 def _reencode_outputs_through_identity(model_proto):
@@ -917,7 +1021,11 @@ def plan(tier: str) -> dict:
                        # role (observed on a heavily loaded machine, 332 models: 23 / 67 / 24 / 16 / 31)
                        ("reach:initializer_input_conversion_on_hinted_main_input", 4),
                        ("reach:role_deciding_pass_on_hinted_main_input", 12), ("reach:role_deciding_pass_on_hinted_subgraph_input", 4),
-                       ("reach:role_deciding_pass_on_hinted_function_input", 3), ("reach:role_deciding_pass_on_hinted_node_output", 5)):
+                       ("reach:role_deciding_pass_on_hinted_function_input", 3), ("reach:role_deciding_pass_on_hinted_node_output", 5),
+                       # falsy attribute values (fixed stratum, see FALSY_STRATUM): calls that rely on a falsy default of an
+                       # attribute parameter / give a falsy literal were instantiated by the inliner
+                       ("reach:call_relying_on_falsy_default_inlined", 10), ("reach:call_giving_falsy_attribute_value_inlined", 10),
+                       ("reach:sequence_on_call_relying_on_falsy_default", 40)):
         floors[key] = floor if quick else 10 * floor
     return {
         "cases": 8000 if quick else 110000,
@@ -929,8 +1037,22 @@ def plan(tier: str) -> dict:
     }
 
 
-def run_sequence(ctx, case: GE.Case, rng: random.Random, number: int) -> None:
+# fixed stratum of the case plan: every FALSY_STRATUM[0]-th case plants ``fn_attr_falsy`` on top of the drawn
+# features and its first sequence holds an InlinePass (a drawn variant), so that the reach floors for falsy attribute
+# values do not depend on chance
+FALSY_STRATUM = (8, 5)
+FALSY_FEATURE = "fn_attr_falsy"
+
+
+def run_sequence(ctx, case: GE.Case, rng: random.Random, number: int, with_inline: bool = False) -> None:
     specs = draw_sequence(rng)
+    if with_inline and all(s[0] != "InlinePass" for s in specs):
+        variants = [v for v in sorted(PASS_VARIANTS["InlinePass"]) if v != "criteria=never"]
+        spec = ["InlinePass", "" if rng.random() < 0.5 else rng.choice(variants)]
+        if len(specs) >= 4:
+            specs[rng.randrange(len(specs))] = spec
+        else:
+            specs.insert(rng.randrange(len(specs) + 1), spec)
     source = rng.choice(["built", "deserialized"])
     mode = rng.choice(["single", "single", "single", "sequential", "manager"])
     ctx.count("mode:" + mode)
@@ -1000,7 +1122,12 @@ def run(ctx) -> None:
     n_seq = int(ctx.params.get("sequences", 3))
     for case_id in ctx.case_ids():
         rng = ctx.rng(case_id)
-        case = GE.gen_checked(rng, size=rng.choice([3, 6, 10, 14]), rejected=rejected, extra=True)
+        stratum = case_id % FALSY_STRATUM[0] == FALSY_STRATUM[1]
+        features = None
+        if stratum:
+            features = sorted(GE.choose_features(random.Random(rng.getrandbits(48)), extra=True) | {FALSY_FEATURE})
+            ctx.count("stratum:falsy_attribute_values")
+        case = GE.gen_checked(rng, size=rng.choice([3, 6, 10, 14]), features=features, rejected=rejected, extra=True)
         if case is None:
             ctx.count("generator_gave_up")
             continue
@@ -1019,7 +1146,7 @@ def run(ctx) -> None:
         ctx.count("models_with_function", int(info["has_function"]))
         ctx.count("models_with_planted_duplicate", int(info["has_planted_duplicate"]))
         for number in range(n_seq):
-            run_sequence(ctx, case, rng, number)
+            run_sequence(ctx, case, rng, number, with_inline=stratum and number == 0)
             if ctx.out_of_time():
                 break
     for k, v in rejected.items():
